@@ -130,7 +130,7 @@ class _Run:
                 self.pool_wide(cid, "it is older than an InvalidatePoolError raised on checkout")
             elif site == "ev_checkout" and kind == "disconnect":
                 self.bans.ban(cid, "a checkout listener raised DisconnectionError for it")
-            elif ctxkind == "conn-op" and raised and kind == "disconnect" and site in ("cursor", "execute", "commit", "rollback"):
+            elif ctxkind in ("conn-op", "conn-release") and raised and kind == "disconnect" and site in ("cursor", "execute", "commit", "rollback"):
                 # a disconnect a Connection detects always surfaces from the op; close()/connect faults are the pool's business
                 self.pool_wide(cid, "it is older than a disconnect detected by a Connection (pool-wide invalidation)")
             elif ctxkind == "raw-release" and site in ("rollback", "commit", "ev_reset"):
@@ -433,7 +433,7 @@ class _Run:
                 gc.collect()  # Connection <-> RootTransaction is a reference cycle; a raw fairy dies by refcount
             self.cls.add("gc-release")
         nf = self.new_faults()
-        self.account_faults("raw-release" if kind == "raw" else "conn-release")
+        self.account_faults("raw-release" if kind == "raw" else "conn-release", raised=failed)
         h.state = "gone"
         h.obj = None
         if was_detached and det_cid is not None and any(f[1] in ("rollback", "commit", "ev_reset") for f in nf):
